@@ -22,6 +22,8 @@ CFG = {
         "Leptos.Html.C06_textarea_old_witness",
         "Leptos.Html.C06_textarea_lf_old_witness",
         "Leptos.Html.run_textareaBody",
+        # leptos components that hand `escape` through: <Show>, <ErrorBoundary> (+ fallback, messages), <For>, <Suspense>/<Transition>, <Await>
+        "Leptos.Html.C06_wrappers_transparent",
         "Leptos.Html.C06_island_props",
         "Leptos.Html.C06_doc_attrs",
         "Leptos.Html.C06_doc",
@@ -78,6 +80,12 @@ CFG = {
             "with text siblings); the whole first chunk through the real inject_meta_context: Title text x formatter (prefix / suffix / both "
             "/ outer formatter + inner texts), every attribute of Link (16) Script (12) Style (5) Stylesheet, Script/Style content, Meta, "
             "attributes of every kind and value type on <Html/> and <Body/>; "
+            "leptos wrapper components around the atom, each through to_html(), the in-order stream and the out-of-order stream with its "
+            "scripts applied as the browser does: <Show> children / fallback, <ErrorBoundary> with Ok / Err children (the atom as error message; "
+            "fallback = messages bare, text + messages, element holding them in text and attribute; under a <Show>), <For> rows bare and in an "
+            "element, <Suspense>/<Transition> fallback and Suspend children (ready at once / after 1-2 ticks), <Await>, nestings; random wrapper "
+            "trees (depth 3) in all three modes; for these the observable is the parsed document modulo sibling markers (comments dropped, adjacent "
+            "text merged), for the out-of-order stream both the first paint and the settled document; "
             "then seeded random view trees to depth 4 over 24 container tags + custom elements + 12 void + 5 raw-text/RCDATA "
             "elements with 0-3 attributes of 8 kinds (random value type per position) per element, children = typed strings, primitives, "
             "containers (random kind x item type, nested), (), elements; strings drawn from the hostile alphabet / arbitrary scalar "
@@ -97,6 +105,8 @@ CFG = {
                  "leptos_meta ServerMetaContextOutput::inject_meta_context: TitleContext::as_string (text x formatter), registered Meta/Link/Style/Script/"
                  "Stylesheet tags, <Html/>/<Body/> attribute strings and the string searches that place them",
                  "tachys Island / IslandChildren (hand-written tags and attributes, position passed through)",
+                 "leptos <Show>, <ErrorBoundary>, <For>, <Suspense>, <Transition>, <Await> as transparent for escaping (resolve: first paint / settled document); "
+                 "their sibling markers and chunking are C05/C07's models, compared away by normList here",
                  "html_escape::encode_text / encode_double_quoted_attribute"],
     "assumptions": [
         "view shapes: element nesting that the HTML tree builder accepts without implied end tags (no p-closing element inside p, no a in a, "
@@ -104,7 +114,11 @@ CFG = {
         "(tachys does not validate or escape them); attribute names pairwise distinct per element",
         "elements outside the parser table (tables, select/option, li/dl, pre, iframe, template, svg/math) are not covered by the theorems or the generator",
         "the empty string renders as one space (strings.rs): structureOf states this marker rule instead of hiding it",
-        "streaming (to_html_stream_*) is C07; macro-inlined static HTML is C18",
+        "streaming: the chunk mechanics are C07's; C06 renders wrapper components through both streams and checks the first paint and the settled document; "
+        "macro-inlined static HTML is C18",
+        "wrapper shapes not generated: <Suspense>/<Await> inside another <Suspense> or inside an <ErrorBoundary> fallback (the fallback is rendered "
+        "synchronously even in a stream, so a <Suspense> in it keeps showing its own fallback), more than one failing child per boundary (the order "
+        "of the messages is unspecified), errors thrown inside a Suspend",
         "raw-text elements: string children of <textarea> are RCDATA text and are repaired by hooks/fix-c06-3.patch (+ fix-c06-4 for a leading "
         "line feed): rendered without markers, then entity-escaped, DOM unchanged for every input that was rendered correctly before, hydration "
         "untouched (children of such elements are not hydrated). Flipping ESCAPE_CHILDREN for textarea instead is NOT safe: it would print the "
